@@ -13,7 +13,7 @@ use crate::src::{esc, fnv64, filler, Src};
 use crate::stream::ReadEv;
 use crate::{buf_size, DEFAULT_LIMIT};
 
-pub const LIMITS: [Option<usize>; 14] = [
+pub const LIMITS: [Option<usize>; 17] = [
     None,
     Some(0),
     Some(1),
@@ -28,11 +28,15 @@ pub const LIMITS: [Option<usize>; 14] = [
     Some(51200),
     Some(51201),
     Some(u32::MAX as usize),
+    // limits a u32 cannot hold: nothing can exceed them
+    Some(1usize << 32),
+    Some((1usize << 32) + 4),
+    Some(usize::MAX),
 ];
 
 pub fn pick_limit(s: &mut Src, mostly_default: bool) -> Option<usize> {
     if mostly_default {
-        let i = s.weighted(&[40, 2, 2, 2, 2, 3, 3, 3, 3, 3, 2, 2, 2, 2]);
+        let i = s.weighted(&[40, 2, 2, 2, 2, 3, 3, 3, 3, 3, 2, 2, 2, 2, 1, 1, 1]);
         LIMITS[i]
     } else {
         LIMITS[s.below(LIMITS.len())]
@@ -785,7 +789,8 @@ fn c04_limits(input: &Input, obs: &mut Obs) -> Result<(), Fail> {
     let limit = pick_limit(&mut s, false);
     let l = eff(limit);
     // declared length around the limit
-    let cands: [u64; 9] = [0, 1, (l as u64).saturating_sub(1), l as u64, l as u64 + 1, 2 * l as u64, u32::MAX as u64, (l as u64).saturating_sub(2), l as u64 + 2];
+    let l64 = l as u64;
+    let cands: [u64; 9] = [0, 1, l64.saturating_sub(1), l64, l64.saturating_add(1), l64.saturating_mul(2), u32::MAX as u64, l64.saturating_sub(2), l64.saturating_add(2)];
     let n = cands[s.below(cands.len())].min(u32::MAX as u64) as usize;
     let mut stream = Vec::new();
     // optionally a complete small request in front
@@ -857,7 +862,7 @@ fn c04_limits(input: &Input, obs: &mut Obs) -> Result<(), Fail> {
     if n == l {
         obs.label("n==L");
     }
-    if n == l + 1 {
+    if Some(n) == l.checked_add(1) {
         obs.label("n==L+1");
     }
     if l == 0 {
@@ -985,8 +990,9 @@ fn c04_lines_enum(tier: Tier, shard: u64, nshards: u64, f: &mut dyn FnMut(&[u64]
 }
 
 /// exhaustive over the declared length: params = [limit index, first n of a block of 256]
-const NSWEEP_LIMITS: [Option<usize>; 13] = [
+const NSWEEP_LIMITS: [Option<usize>; 16] = [
     Some(0), Some(1), Some(2), Some(3), Some(5), Some(8), Some(1023), Some(1024), Some(1025), Some(51199), None, Some(51201), Some(u32::MAX as usize),
+    Some(1usize << 32), Some((1usize << 32) + 4), Some(usize::MAX),
 ];
 
 fn c04_nsweep(input: &Input, obs: &mut Obs) -> Result<(), Fail> {
@@ -1092,7 +1098,7 @@ pub fn c04_conn_jobs(tier: Tier) -> Vec<Job> {
     let q = tier == Tier::Quick;
     vec![
         Job { sub: "limits", kind: JobKind::Pbt { cases: if q { 300_000 } else { 6_000_000 }, max_len: 400 }, smallbuf: false },
-        Job { sub: "nsweep", kind: JobKind::Enum { f: c04_nsweep_enum, bound: "13 limits x every declared length 0..max(L+1024, 4096 (quick) / 70000 (thorough)) and the top of the u32 range, header block only (and with body + following request for n <= 600)" }, smallbuf: false },
+        Job { sub: "nsweep", kind: JobKind::Enum { f: c04_nsweep_enum, bound: "16 limits (incl. 2^32, 2^32+4, usize::MAX) x every declared length 0..max(L+1024, 4096 (quick) / 70000 (thorough)) and the top of the u32 range, header block only (and with body + following request for n <= 600)" }, smallbuf: false },
         Job { sub: "lines", kind: JobKind::Enum { f: c04_lines_enum, bound: "request/header line of every length 1000..1100 (incl. CRLF) x start offset 0..1100 (quick: step 13; thorough: every offset) x read sizes; B=32 build: lengths 20..40 x offsets 0..80" }, smallbuf: false },
         Job { sub: "lines", kind: JobKind::Enum { f: c04_lines_enum, bound: "B=32: line lengths 20..40 x offsets 0..80" }, smallbuf: true },
         Job { sub: "e2_32", kind: JobKind::Enum { f: small_cut2_enum, bound: "B=32 piece family x all cut pairs (size-related mismatches only)" }, smallbuf: true },
